@@ -151,21 +151,30 @@ def insertSorted (kv : Int × String) : List (Int × String) → List (Int × St
 
 def insertAll (items adds : List (Int × String)) : List (Int × String) := adds.foldl (fun acc kv => insertSorted kv acc) items
 
-/-- what one opened store's part of a successful commit does to the catalogue and the tree -/
-def applyAdds (d : List Store) (o : Opened) : List Store :=
+/-- The nodes of one attached store are committed whatever happens to the counts: the items hang under the root id
+the transaction saw. -/
+def applyItems (d : List Store) (o : Opened) : List Store :=
   if o.adds.isEmpty then d else
   d.map fun st =>
-    if st.name = o.name then
-      { st with count := st.count + (o.adds.length : Int),
-                items := if st.root = o.root then insertAll st.items o.adds else st.items }
-    else st
+    if st.name = o.name ∧ st.root = o.root then { st with items := insertAll st.items o.adds } else st
+
+/-- `StoreRepository.Update` of one store (found **by name**): the count delta. -/
+def applyCount (d : List Store) (o : Opened) : List Store :=
+  if o.adds.isEmpty then d else
+  d.map fun st => if st.name = o.name then { st with count := st.count + (o.adds.length : Int) } else st
+
+/-- `commitStores`: `StoreRepository.Update` gets every store with a count delta. When one of them does not exist
+any more (removed under the transaction), `Update` undoes the deltas it already applied and returns `nil, nil`:
+the commit goes on and succeeds, and **no** count is updated. -/
+def applyCounts (d : List Store) (os : List Opened) : List Store :=
+  if (os.filter (fun o => !o.adds.isEmpty)).all (fun o => has d o.name) then os.foldl applyCount d else d
 
 def commit (s : State) (t : Nat) : State × String :=
   let tx := s.txn t
   if !live tx || tx.pending.isSome then (s, "bad-op") else
   if tx.failCommit && tx.opened.any (fun o => !o.adds.isEmpty) then (rollbackTxn s t, "err:commit")
   else
-    (setTxn { s with disk := tx.opened.foldl applyAdds s.disk } t
+    (setTxn { s with disk := applyCounts (tx.opened.foldl applyItems s.disk) tx.opened } t
       { begun := true, done := true, opened := [], pending := none, failCommit := false }, "ok")
 
 inductive Op
@@ -204,8 +213,9 @@ def insertByName (x : Store) : List Store → List Store
 
 def sortByName (d : List Store) : List Store := d.foldl (fun acc x => insertByName x acc) []
 
+/-- a scan of a store whose count is 0 returns nothing (`Btree.First` looks at the count first) -/
 def showStore (st : Store) : String :=
-  let items := ",".intercalate (st.items.map fun kv => s!"{kv.1}={kv.2}")
+  let items := if st.count = 0 then "" else ",".intercalate (st.items.map fun kv => s!"{kv.1}={kv.2}")
   s!"{st.name}:{st.opts.slot}:{if st.opts.unique then 1 else 0}:{st.count}:[{items}]"
 
 /-- what a freshly started process sees: the stores and their contents, the folders carrying a store info file,
